@@ -152,8 +152,12 @@ class Agg:
             self.digests[k] = v
 
 
+_TASK = None  # (factory, fn, setup): set in the parent before forking, so closures need not be picklable
+
+
 def _worker(args):
-    (factory, fn, shard, nshards, limit, recheck_n, only_first, setup) = args
+    (shard, nshards, limit, recheck_n, only_first) = args
+    factory, fn, setup = _TASK
     agg = Agg()
     t0 = time.process_time()
     try:
@@ -205,7 +209,9 @@ class Ctx:
         jobs = jobs or self.jobs
         limit = limit or self.limit
         t = time.time()
-        tasks = [(factory, fn, i, jobs, limit, self.recheck_n, None, setup) for i in range(jobs)]
+        global _TASK
+        _TASK = (factory, fn, setup)
+        tasks = [(i, jobs, limit, self.recheck_n, None) for i in range(jobs)]
         ctxm = mp.get_context("fork")
         part = Agg()
         with ctxm.Pool(jobs) as pool:
@@ -216,8 +222,7 @@ class Ctx:
         if recheck and part.evaluations:
             # determinism: the first N cases again, in a fresh process, must give identical observations
             with ctxm.Pool(1) as pool:
-                status, payload = pool.apply(_worker, ((factory, fn, 0, 1, limit, self.recheck_n,
-                                                        self.recheck_n, setup),))
+                status, payload = pool.apply(_worker, ((0, 1, limit, self.recheck_n, self.recheck_n),))
             if status != "OK":
                 raise HarnessError(f"recheck worker crashed in {name}:\n{payload}")
             for k, v in payload.digests.items():
